@@ -1,5 +1,6 @@
 import FxVerif.Model.C10
 import FxVerif.Model.C09
+import FxVerif.Proofs.C10
 /-!
 # C10 — precompiles act only for their direct caller, only in a writable call context, only when enabled
 
@@ -47,13 +48,16 @@ theorem moveShares_safe (w w' : World) (p to a c : Addr) (s : Nat) (call : Call)
   unfold moveShares at h
   split at h
   · cases h
-  · injection h with h; subst h
-    refine ⟨?_, rfl, rfl, ?_, rfl⟩
-    · rw [claim_funds w p a, claim_funds (claim w p) to a]; exact Nat.le_refl _
-    · simp only [upd, claim]
-      split
-      · simp_all
-      · simp [hp]
+  · split at h
+    · injection h with h; subst h
+      exact ⟨Nat.le_refl _, rfl, rfl, Nat.le_refl _, rfl⟩
+    · injection h with h; subst h
+      refine ⟨?_, rfl, rfl, ?_, rfl⟩
+      · rw [claim_funds w p a, claim_funds (claim w p) to a]; exact Nat.le_refl _
+      · simp only [upd, claim]
+        split
+        · simp_all
+        · simp [hp]
 
 /-- C10, first sentence: for every method of a table that meets the obligation, every argument value, every caller
 `c`, every governance setting and call context: if the call runs, any account `a ≠ c` keeps its funds (balance + pending
@@ -111,15 +115,23 @@ theorem only_caller_pays (chk : DisabledCheck) (tbl : List MInfo) (hok : tableOk
                 unfold moveShares at h
                 split at h
                 · cases h
-                · injection h with h; subst h
-                  refine ⟨?_, Nat.le_refl _, fun e he hs => ⟨e, he, rfl, hs, Nat.le_refl _⟩, .inr ⟨to, s, rfl, Nat.le_of_not_lt hall, ?_, ?_⟩, ?_⟩
-                  · simp only [claim, upd]; split <;> simp_all <;> omega
-                  · simp only [claim, upd2]; simp; omega
-                  · simp only [claim, upd]; split <;> simp_all <;> omega
-                  · intro sp
+                · split at h
+                  · -- transfer to oneself: only the allowance is consumed
+                    injection h with h; subst h
+                    refine ⟨Nat.le_refl _, Nat.le_refl _, fun e he hs => ⟨e, he, rfl, hs, Nat.le_refl _⟩, .inl (Nat.le_refl _), ?_⟩
+                    intro sp
                     by_cases hsp : sp = env.caller
-                    · right; refine ⟨hsp, to, s, rfl, ?_⟩; simp only [claim, upd2]; simp; omega
-                    · left; simp [claim, upd2, hsp]
+                    · right; refine ⟨hsp, to, s, rfl, ?_⟩; simp only [upd2]; simp; omega
+                    · left; simp [upd2, hsp]
+                  · injection h with h; subst h
+                    refine ⟨?_, Nat.le_refl _, fun e he hs => ⟨e, he, rfl, hs, Nat.le_refl _⟩, .inr ⟨to, s, rfl, Nat.le_of_not_lt hall, ?_, ?_⟩, ?_⟩
+                    · simp only [claim, upd]; split <;> simp_all <;> omega
+                    · simp only [claim, upd2]; simp; omega
+                    · simp only [claim, upd]; split <;> simp_all <;> omega
+                    · intro sp
+                      by_cases hsp : sp = env.caller
+                      · right; refine ⟨hsp, to, s, rfl, ?_⟩; simp only [claim, upd2]; simp; omega
+                      · left; simp [claim, upd2, hsp]
               · have := moveShares_safe _ w' frm to a env.caller s (.transferFromShares frm to s) haf h
                 obtain ⟨h1, h2, h3, h4, h5⟩ := this
                 refine ⟨h1, Nat.le_of_eq h2, fun e he hs => ⟨e, h3 ▸ he, rfl, hs, Nat.le_refl _⟩, .inl h4, ?_⟩
@@ -164,9 +176,11 @@ theorem only_caller_pays (chk : DisabledCheck) (tbl : List MInfo) (hok : tableOk
             · exact hp
             · simp [Call.name] at hn
           simp only [effect, hp] at h
-          injection h with h; subst h
-          refine ⟨?_, Nat.le_refl _, fun e he hs => ⟨e, he, rfl, hs, Nat.le_refl _⟩, .inl ?_, fun _ => .inl rfl⟩ <;>
-            simp [claim, upd, ha]
+          split at h
+          · cases h
+          · injection h with h; subst h
+            refine ⟨?_, Nat.le_refl _, fun e he hs => ⟨e, he, rfl, hs, Nat.le_refl _⟩, .inl ?_, fun _ => .inl rfl⟩ <;>
+              simp [claim, upd, ha]
         | approve sp s =>
           have hp : resolve i.payer env (.approve sp s) = env.caller := by
             rcases hpay with hp | ⟨_, hn, _⟩
@@ -296,6 +310,496 @@ theorem disabled_never_runs (tbl : List MInfo) (dis : List (List Char)) (ro : Bo
 /-- and a dispatcher that is neither read-only-blocked nor disabled does run the method (the guards are not vacuous) -/
 example : ∃ w', run disabledCheck minfos [] false ['0','x','1'] ['a'] ⟨1, 1⟩ (.approve 2 5)
     ⟨fun _ => 0, fun _ => 0, fun _ => 0, fun _ => 0, fun _ _ => 0, [], 1⟩ = .ok w' := ⟨_, rfl⟩
+
+/-! ### round 2: the same statements over the dispatcher assembled from regenerated CODE (`runGen`) -/
+open FxVerif.Gen.C10 FxVerif.Proofs.C10
+
+/-- the translators understood every statement of `CheckContractAddressIsDisabled` and `decrementAllowance`, both keeper
+accessors of the allowance build their key from (valAddr, owner, spender) in that order, `decrementAllowance` reads and
+writes under that same key, and its parameters are (ctx, valAddr, owner, spender, decrease) -/
+theorem allowance_key_consistent :
+    getAllowanceKey = ["valAddr", "owner", "spender"] ∧ setAllowanceKey = ["valAddr", "owner", "spender"] ∧
+    getAllowanceParams = ["ctx", "valAddr", "owner", "spender"] ∧
+    setAllowanceParams.take 4 = ["ctx", "valAddr", "owner", "spender"] ∧ setAllowanceParams.length = 5 ∧
+    decrementProg.params = ["ctx", "valAddr", "owner", "spender", "decrease"] := by decide
+
+/-- the regenerated loop of `CheckContractAddressIsDisabled` (prelude, `for range` with its `return`s, epilogue), run on ANY
+list: it reports "disabled" exactly when SOME entry — first, last or in between, among any other entries for the same
+or other addresses — equals in lower case the address or address + "/" + hex(methodId) -/
+theorem governance_check_program_spec (dis : List (List Char)) (addr mid : List Char) :
+    checkDisabledGen disabledProg dis addr mid =
+      some (dis.any (fun d => lower d == lower addr || lower d == lower addr ++ '/' :: mid)) :=
+  checkDisabledGen_spec dis addr mid
+
+/-- the regenerated `decrementAllowance`, statement by statement, for every owner, spender, amount and allowance table:
+it fails iff allowance < amount; otherwise the (owner, spender) allowance becomes EXACTLY allowance − amount — there is
+no value (0, 1, 2^256−1, …) for which it is left as it was — and nothing else of the world changes -/
+theorem decrement_allowance_exact (o s : Addr) (d : Nat) (w : World) :
+    runDecW decrementProg o s d w =
+      if w.allow o s < d then .error .allowance
+      else .ok { w with allow := upd2 w.allow o s (w.allow o s - d) } :=
+  decrement_exact o s d w
+
+/-- REFINEMENT: the dispatcher built from the regenerated step order of `Run`, the regenerated governance-check program,
+the regenerated closures of approveShares / transferShares / transferFromShares (their ctx-receiving calls in source
+order with the provenance of every argument and the treatment of every error) and the regenerated `decrementAllowance`
+behaves, for every state-changing call, switch list, call context, caller and world, exactly like the specification:
+blocked when read-only, else blocked when disabled, else the caller's `specEffect` -/
+theorem runGen_refines_spec (dis : List (List Char)) (ro : Bool) (addr mid : List Char) (env : Env) (call : Call) (w : World)
+    (hv : call.isView = false) :
+    runGen dis ro addr mid env call w = specRun dis ro addr mid env.caller call w :=
+  runGen_refines dis ro addr mid env call w hv
+
+/-- the specification's effect is `run` over a one-row table that meets the obligation -/
+theorem specEffect_safe (c : Addr) (call : Call) (w w' : World) (h : specEffect c call w = .ok w') (a : Addr) (ha : a ≠ c) :
+    Safe w w' a c call := by
+  cases call with
+  | transferFromShares f t s =>
+    have := only_caller_pays disabledCheck [⟨"transferFromShares", false, .argFrom, true⟩] (by decide) [] false [] []
+      ⟨c, c⟩ (.transferFromShares f t s) w w' (by simpa [run, isDisabled, Call.name, resolve, Call.argFrom, specEffect] using h) a ha
+    exact this
+  | view n =>
+    simp only [specEffect, effect] at h; cases h; exact safe_refl _ _ _ _
+  | delegate x =>
+    exact only_caller_pays disabledCheck [⟨"delegateV2", false, .caller, false⟩] (by decide) [] false [] [] ⟨c, c⟩ _ w w'
+      (by simpa [run, isDisabled, Call.name, resolve, specEffect] using h) a ha
+  | undelegate x =>
+    exact only_caller_pays disabledCheck [⟨"undelegateV2", false, .caller, false⟩] (by decide) [] false [] [] ⟨c, c⟩ _ w w'
+      (by simpa [run, isDisabled, Call.name, resolve, specEffect] using h) a ha
+  | redelegate x =>
+    exact only_caller_pays disabledCheck [⟨"redelegateV2", false, .caller, false⟩] (by decide) [] false [] [] ⟨c, c⟩ _ w w'
+      (by simpa [run, isDisabled, Call.name, resolve, specEffect] using h) a ha
+  | withdraw =>
+    exact only_caller_pays disabledCheck [⟨"withdraw", false, .caller, false⟩] (by decide) [] false [] [] ⟨c, c⟩ _ w w'
+      (by simpa [run, isDisabled, Call.name, resolve, specEffect] using h) a ha
+  | approve sp x =>
+    exact only_caller_pays disabledCheck [⟨"approveShares", false, .caller, false⟩] (by decide) [] false [] [] ⟨c, c⟩ _ w w'
+      (by simpa [run, isDisabled, Call.name, resolve, specEffect] using h) a ha
+  | transferShares t x =>
+    exact only_caller_pays disabledCheck [⟨"transferShares", false, .caller, false⟩] (by decide) [] false [] [] ⟨c, c⟩ _ w w'
+      (by simpa [run, isDisabled, Call.name, resolve, specEffect] using h) a ha
+  | crossChain x y r =>
+    exact only_caller_pays disabledCheck [⟨"crossChain", false, .caller, false⟩] (by decide) [] false [] [] ⟨c, c⟩ _ w w'
+      (by simpa [run, isDisabled, Call.name, resolve, specEffect] using h) a ha
+  | cancelSend i =>
+    exact only_caller_pays disabledCheck [⟨"cancelSendToExternal", false, .caller, false⟩] (by decide) [] false [] [] ⟨c, c⟩ _ w w'
+      (by simpa [run, isDisabled, Call.name, resolve, specEffect] using h) a ha
+  | increaseFee i f =>
+    exact only_caller_pays disabledCheck [⟨"increaseBridgeFee", false, .caller, false⟩] (by decide) [] false [] [] ⟨c, c⟩ _ w w'
+      (by simpa [run, isDisabled, Call.name, resolve, specEffect] using h) a ha
+  | bridgeCall r t v =>
+    exact only_caller_pays disabledCheck [⟨"bridgeCall", false, .caller, false⟩] (by decide) [] false [] [] ⟨c, c⟩ _ w w'
+      (by simpa [run, isDisabled, Call.name, resolve, specEffect] using h) a ha
+  | executeClaim n =>
+    exact only_caller_pays disabledCheck [⟨"executeClaim", false, .caller, false⟩] (by decide) [] false [] [] ⟨c, c⟩ _ w w'
+      (by simpa [run, isDisabled, Call.name, resolve, specEffect] using h) a ha
+
+/-- C10 first sentence over regenerated code: whenever the regenerated dispatcher lets a state-changing call through, every
+account other than the direct caller is `Safe` -/
+theorem gen_only_caller_pays (dis : List (List Char)) (ro : Bool) (addr mid : List Char) (env : Env) (call : Call) (w w' : World)
+    (hv : call.isView = false) (h : (runGen dis ro addr mid env call w).out = .ok w') (a : Addr) (ha : a ≠ env.caller) :
+    Safe w w' a env.caller call := by
+  rw [runGen_refines _ _ _ _ _ _ _ hv] at h
+  unfold specRun at h
+  split at h
+  · cases h
+  · split at h
+    · cases h
+    · exact specEffect_safe _ _ _ _ h a ha
+
+/-- a read-only context (any direct STATICCALL / DELEGATECALL / CALLCODE) never starts a state-changing method: the
+regenerated step order has the guard BEFORE `method.Run` -/
+theorem gen_non_call_kinds_cannot_write (k : Kind) (hk : k ≠ .call) (dis : List (List Char)) (addr mid : List Char)
+    (env : Env) (call : Call) (w : World) (hv : call.isView = false) :
+    ∃ ro, readonlyFlag k = some ro ∧
+      runGen dis ro addr mid env call w = ⟨.error .writeProtection, false⟩ := by
+  have hc := call_kind_readonly
+  have hro : readonlyFlag k = some true := by
+    cases k with
+    | call => exact absurd rfl hk
+    | staticcall => exact hc.1
+    | delegatecall => exact hc.2.1
+    | callcode => exact hc.2.2.1
+  exact ⟨true, hro, by rw [runGen_refines _ _ _ _ _ _ _ hv]; simp [specRun]⟩
+
+/-- a switch list that contains — anywhere, among any other entries — the address or address/methodId in any letter case:
+the regenerated dispatcher returns an error and `method.Run` is never started (`executed = false`), for every method
+(views included), caller, call context and world -/
+theorem gen_disabled_never_runs (dis : List (List Char)) (ro : Bool) (addr mid : List Char) (env : Env) (call : Call)
+    (w : World) (d : List Char) (hd : d ∈ dis) (hmatch : lower d = lower addr ∨ lower d = lower addr ++ '/' :: mid) :
+    (∃ e, (runGen dis ro addr mid env call w).out = .error e) ∧ (runGen dis ro addr mid env call w).executed = false := by
+  have hdis : specDisabled dis addr mid = true := by
+    simp only [specDisabled, List.any_eq_true, Bool.or_eq_true, beq_iff_eq]
+    exact ⟨d, hd, hmatch⟩
+  unfold runGen
+  split
+  · exact ⟨⟨_, rfl⟩, rfl⟩
+  next r _ =>
+    split
+    · exact ⟨⟨_, rfl⟩, rfl⟩
+    next dd hdd =>
+      rw [steps_all dd (List.mem_of_find?_eq_some hdd), runSteps_canonical, checkDisabledGen_spec, hdis]
+      by_cases h1 : (ro && !r.info.readonly) = true
+      · simp [h1]
+      · simp [h1]
+
+/-! ### histories -/
+
+/-- what a non-caller keeps over a history -/
+structure Keeps (w w' : World) (a : Addr) : Prop where
+  funds : w.bal a + w.rewards a ≤ w'.bal a + w'.rewards a
+  unbond : w.unbonding a ≤ w'.unbonding a
+  pool : ∀ e ∈ w.pool, e.sender = a → ∃ e' ∈ w'.pool, e'.id = e.id ∧ e'.sender = a ∧ e.amount ≤ e'.amount
+
+theorem keeps_refl (w : World) (a : Addr) : Keeps w w a :=
+  ⟨Nat.le_refl _, Nat.le_refl _, fun e he hs => ⟨e, he, rfl, hs, Nat.le_refl _⟩⟩
+
+theorem keeps_trans {w1 w2 w3 : World} {a : Addr} (h1 : Keeps w1 w2 a) (h2 : Keeps w2 w3 a) : Keeps w1 w3 a := by
+  refine ⟨Nat.le_trans h1.funds h2.funds, Nat.le_trans h1.unbond h2.unbond, ?_⟩
+  intro e he hs
+  obtain ⟨e', he', hid, hs', hle⟩ := h1.pool e he hs
+  obtain ⟨e'', he'', hid', hs'', hle'⟩ := h2.pool e' he' hs'
+  exact ⟨e'', he'', hid'.trans hid, hs'', Nat.le_trans hle hle'⟩
+
+/-- exact allowance table after a successful call (specification level) -/
+theorem specEffect_allow (c : Addr) (call : Call) (w w' : World) (h : specEffect c call w = .ok w') :
+    (∀ sp s, call = .approve sp s → w'.allow = upd2 w.allow c sp s) ∧
+    (∀ f t s, call = .transferFromShares f t s → s ≤ w.allow f c ∧ w'.allow = upd2 w.allow f c (w.allow f c - s)) ∧
+    ((∀ sp s, call ≠ .approve sp s) → (∀ f t s, call ≠ .transferFromShares f t s) → w'.allow = w.allow) := by
+  have hmove : ∀ (w0 w1 : World) p to s, moveShares w0 p to s = .ok w1 → w1.allow = w0.allow := by
+    intro w0 w1 p to s hm
+    unfold moveShares at hm
+    split at hm
+    · cases hm
+    · split at hm <;> (injection hm with hm; subst hm; rfl)
+  cases call with
+  | approve sp s =>
+    simp only [specEffect, effect] at h; injection h with h; subst h
+    exact ⟨fun sp' s' he => (by cases he; rfl), fun _ _ _ he => (nomatch he), fun h1 _ => absurd rfl (h1 sp s)⟩
+  | transferFromShares f t s =>
+    simp only [specEffect, effect, ↓reduceIte] at h
+    split at h
+    · cases h
+    · rename_i hle
+      have := hmove _ _ _ _ _ h
+      exact ⟨fun _ _ he => (nomatch he), fun f' t' s' he => (by cases he; exact ⟨Nat.le_of_not_lt hle, this⟩),
+        fun _ h2 => absurd rfl (h2 f t s)⟩
+  | transferShares t s =>
+    simp only [specEffect, effect] at h
+    exact ⟨fun _ _ he => (nomatch he), fun _ _ _ he => (nomatch he), fun _ _ => hmove _ _ _ _ _ h⟩
+  | view n =>
+    simp only [specEffect, effect] at h; cases h
+    exact ⟨fun _ _ he => (nomatch he), fun _ _ _ he => (nomatch he), fun _ _ => rfl⟩
+  | executeClaim n =>
+    simp only [specEffect, effect] at h; cases h
+    exact ⟨fun _ _ he => (nomatch he), fun _ _ _ he => (nomatch he), fun _ _ => rfl⟩
+  | withdraw =>
+    simp only [specEffect, effect] at h
+    split at h
+    · cases h
+    · cases h; exact ⟨fun _ _ he => (nomatch he), fun _ _ _ he => (nomatch he), fun _ _ => rfl⟩
+  | delegate x =>
+    simp only [specEffect, effect] at h
+    split at h
+    · cases h
+    · cases h; exact ⟨fun _ _ he => (nomatch he), fun _ _ _ he => (nomatch he), fun _ _ => rfl⟩
+  | undelegate x =>
+    simp only [specEffect, effect] at h
+    split at h
+    · cases h
+    · cases h; exact ⟨fun _ _ he => (nomatch he), fun _ _ _ he => (nomatch he), fun _ _ => rfl⟩
+  | redelegate x =>
+    simp only [specEffect, effect] at h
+    split at h
+    · cases h
+    · cases h; exact ⟨fun _ _ he => (nomatch he), fun _ _ _ he => (nomatch he), fun _ _ => rfl⟩
+  | crossChain x y r =>
+    simp only [specEffect, effect] at h
+    split at h
+    · cases h
+    · cases h; exact ⟨fun _ _ he => (nomatch he), fun _ _ _ he => (nomatch he), fun _ _ => rfl⟩
+  | bridgeCall r t v =>
+    simp only [specEffect, effect] at h
+    split at h
+    · cases h
+    · cases h; exact ⟨fun _ _ he => (nomatch he), fun _ _ _ he => (nomatch he), fun _ _ => rfl⟩
+  | increaseFee i f =>
+    simp only [specEffect, effect] at h
+    split at h
+    · cases h
+    · cases h; exact ⟨fun _ _ he => (nomatch he), fun _ _ _ he => (nomatch he), fun _ _ => rfl⟩
+  | cancelSend i =>
+    simp only [specEffect, effect] at h
+    split at h
+    · cases h
+    · split at h
+      · cases h
+      · cases h; exact ⟨fun _ _ he => (nomatch he), fun _ _ _ he => (nomatch he), fun _ _ => rfl⟩
+
+/-- one step: the allowance `a → c` shrinks by exactly what `c` moved out of `a` in that step (nothing if the call was
+blocked, failed, or was anything else), as long as `a` is not the caller -/
+theorem step_allowance_exact (w : World) (o : HOp) (a c : Addr) (ha : o.env.caller ≠ a) :
+    (applyOp w o).allow a c + spentBy a c w o = w.allow a c ∧ spentBy a c w o ≤ w.allow a c := by
+  rcases applyOp_spec w o with ⟨hs, hw⟩ | ⟨hs, heff, _, _⟩ | ⟨hs, hw, hview⟩
+  · rw [hw]; unfold spentBy; split <;> simp [hs]
+  · obtain ⟨h1, h2, h3⟩ := specEffect_allow _ _ _ _ heff
+    unfold spentBy
+    cases hc : o.call with
+    | approve sp s =>
+      rw [h1 sp s hc]; simp [upd2, Ne.symm ha]
+    | transferFromShares f t s =>
+      obtain ⟨hle, hal⟩ := h2 f t s hc
+      rw [hal]
+      by_cases hfc : f = a ∧ o.env.caller = c
+      · obtain ⟨rfl, rfl⟩ := hfc
+        simp [upd2, hs]; omega
+      · have : ¬ (a = f ∧ c = o.env.caller) := fun h => hfc ⟨h.1.symm, h.2.symm⟩
+        simp only [upd2, this, ↓reduceIte]
+        have : ¬ (f = a ∧ o.env.caller = c ∧ succeeded w o = true) := fun h => hfc ⟨h.1, h.2.1⟩
+        simp [this]
+    | _ => rw [h3 (by intro _ _ he; simp [hc] at he) (by intro _ _ _ he; simp [hc] at he)]; simp
+  · rw [hw]; unfold spentBy
+    cases hc : o.call with
+    | view n => simp
+    | _ => simp [hc, Call.isView] at hview
+
+/-- one step: shares of a non-caller -/
+theorem step_shares (w : World) (o : HOp) (a : Addr) (ha : o.env.caller ≠ a) :
+    w.shares a ≤ (applyOp w o).shares a + movedFrom a w o ∧ movedFrom a w o ≤ w.allow a o.env.caller ∧
+    Keeps w (applyOp w o) a := by
+  rcases applyOp_spec w o with ⟨hs, hw⟩ | ⟨hs, heff, _, _⟩ | ⟨hs, hw, hview⟩
+  · rw [hw]; refine ⟨Nat.le_add_right _ _, ?_, keeps_refl _ _⟩
+    unfold movedFrom; split <;> simp [hs]
+  · have hsafe := specEffect_safe _ _ _ _ heff a (fun h => ha h.symm)
+    refine ⟨?_, ?_, ⟨hsafe.funds, hsafe.unbond, hsafe.pool⟩⟩
+    · rcases hsafe.shares with h | ⟨to, s, hc, _, _, hle⟩
+      · exact Nat.le_trans h (Nat.le_add_right _ _)
+      · simp [movedFrom, hc, hs]; exact hle
+    · unfold movedFrom
+      cases hc : o.call with
+      | transferFromShares f t s =>
+        obtain ⟨hle, _⟩ := (specEffect_allow _ _ _ _ heff).2.1 f t s hc
+        by_cases hf : f = a
+        · subst hf; simp [hs, hle]
+        · simp [hf]
+      | _ => simp
+  · rw [hw]; refine ⟨Nat.le_add_right _ _, ?_, keeps_refl _ _⟩
+    unfold movedFrom
+    cases hc : o.call with
+    | view n => simp
+    | _ => simp [hc, Call.isView] at hview
+
+/-- HISTORIES, allowance clause ("at most the allowance can be moved and it is reduced by exactly the amount moved"):
+for EVERY list of calls by any callers through any call kinds under any switch settings, EVERY start world and every
+account `a` that is not itself the direct caller of one of them: for every spender `c`, the allowance `a → c` at the end
+plus everything `c` moved out of `a` through `transferFromShares` equals the allowance at the start.  In particular
+the total ever moved by `c` is at most the allowance, however the amount is split over calls and whatever its value
+(2^256−1 included) -/
+theorem history_allowance_exact (ops : List HOp) (w : World) (a c : Addr) (ha : ∀ o ∈ ops, o.env.caller ≠ a) :
+    (runH ops w).allow a c + totalSpent a c ops w = w.allow a c := by
+  induction ops generalizing w with
+  | nil => simp [runH, totalSpent]
+  | cons o r ih =>
+    have hstep := (step_allowance_exact w o a c (ha o (List.mem_cons_self ..))).1
+    have := ih (applyOp w o) (fun o' ho' => ha o' (List.mem_cons_of_mem _ ho'))
+    simp only [runH, List.foldl_cons, totalSpent] at this ⊢
+    omega
+
+/-- HISTORIES, first sentence: over every such history `a` keeps its funds (balance + pending rewards), its unbonding
+entries and its queued withdrawals, and loses at most the shares that spenders moved within their allowances -/
+theorem history_noncaller_safe (ops : List HOp) (w : World) (a : Addr) (ha : ∀ o ∈ ops, o.env.caller ≠ a) :
+    Keeps w (runH ops w) a ∧ w.shares a ≤ (runH ops w).shares a + totalMoved a ops w := by
+  induction ops generalizing w with
+  | nil => exact ⟨keeps_refl _ _, Nat.le_refl _⟩
+  | cons o r ih =>
+    obtain ⟨h1, _, h3⟩ := step_shares w o a (ha o (List.mem_cons_self ..))
+    obtain ⟨k, hsh⟩ := ih (applyOp w o) (fun o' ho' => ha o' (List.mem_cons_of_mem _ ho'))
+    refine ⟨keeps_trans h3 (by simpa [runH] using k), ?_⟩
+    simp only [runH, List.foldl_cons, totalMoved] at hsh ⊢
+    omega
+
+/-- HISTORIES, corollary: an account that never calls and has granted no allowance loses nothing at all — no share, no
+coin, no reward, no unbonding entry, no queued withdrawal — under any history of precompile calls by others, and
+still has no allowance granted at the end (nobody can approve on its behalf) -/
+theorem history_no_allowance_untouchable (ops : List HOp) (w : World) (a : Addr) (ha : ∀ o ∈ ops, o.env.caller ≠ a)
+    (h0 : ∀ c, w.allow a c = 0) :
+    Keeps w (runH ops w) a ∧ w.shares a ≤ (runH ops w).shares a ∧ ∀ c, (runH ops w).allow a c = 0 := by
+  induction ops generalizing w with
+  | nil => exact ⟨keeps_refl _ _, Nat.le_refl _, h0⟩
+  | cons o r ih =>
+    have hin := ha o (List.mem_cons_self ..)
+    obtain ⟨h1, h2, h3⟩ := step_shares w o a hin
+    have h0' : ∀ c, (applyOp w o).allow a c = 0 := by
+      intro c
+      have := (step_allowance_exact w o a c hin).1
+      have := h0 c
+      omega
+    obtain ⟨k, hsh, hal⟩ := ih (applyOp w o) (fun o' ho' => ha o' (List.mem_cons_of_mem _ ho')) h0'
+    have hm : movedFrom a w o = 0 := by have := h0 o.env.caller; omega
+    refine ⟨keeps_trans h3 (by simpa [runH] using k), ?_, by simpa [runH] using hal⟩
+    simp only [runH, List.foldl_cons] at hsh ⊢
+    omega
+
+/-- non-vacuity: a history in which an owner approves 2^256−1 and the spender then moves shares three times; the allowance
+ends at 2^256−1 − (sum moved) and the three transfers all succeed -/
+example :
+    let W : World := ⟨fun _ => 0, fun a => if a = 4 then 100 else 0, fun _ => 0, fun _ => 0, fun _ _ => 0, [], 1⟩
+    let mk (c : Addr) (call : Call) : HOp := ⟨.call, [], ['0', 'x'], ['a'], ⟨c, 3⟩, call⟩
+    let ops := [mk 4 (.approve 1 (2 ^ 256 - 1)), mk 1 (.transferFromShares 4 2 10), mk 1 (.transferFromShares 4 1 20),
+                mk 1 (.transferFromShares 4 4 5)]
+    (runH ops W).allow 4 1 = 2 ^ 256 - 1 - 35 ∧ (runH ops W).shares 4 = 70 ∧ (runH ops W).shares 2 = 10 ∧
+    totalSpent 4 1 (ops.drop 1) (applyOp W (mk 4 (.approve 1 (2 ^ 256 - 1)))) = 35 := by
+  decide
+
+/-- dependency facts (go-ethereum fork, re-read on every run): for all four call kinds the precompile frame is built by
+`NewPrecompile(caller, AccountRef(p.Address()), value, gas)` where `caller` is the frame that executed the CALL-family
+opcode — so `contract.Caller()` is the DIRECT caller (also for DELEGATECALL / CALLCODE: no `AsDelegate`) and
+`contract.Address()` is the precompile itself — and msg.value of a CALL is debited from `caller.Address()` -/
+theorem precompile_frame_is_direct_caller :
+    forkPrecompileArgs.map (fun p => (p.1, p.2.take 2)) =
+      [("Call", ["p", "caller"]), ("CallCode", ["p", "caller"]), ("DelegateCall", ["p", "caller"]), ("StaticCall", ["p", "caller"])] ∧
+    forkFrameArgs.take 3 = ["caller", "AccountRef(addrCopy)", "value"] ∧ forkAddrCopy = "p.Address()" ∧
+    forkCallTransfer.drop 1 = ["caller.Address()", "addr", "value"] ∧
+    forkPrecompileArgs.map (fun p => (p.1, p.2.getLast?)) = forkReadonlyArg.map (fun p => (p.1, some p.2)) := by decide
+
+/-- `handlerTransferShares(ctx, evm, valAddr, from, to, sharesInt)` as the source has it now: the delegation that is
+read for `from` is the one that is guarded (`LT(shares)` → error) and reduced (`Sub(shares)`), the one read or created for
+`to` is the one increased (`Add(shares)`) by the same amount (`shares := Dec(sharesInt)`), the self-transfer return comes
+before every mutation and mutates nothing, rewards are withdrawn for `from` and `to` only — the order `moveShares` has -/
+theorem transfer_handler_flow :
+    transferFlow =
+      [("params", "ctx,evm,valAddr,from,to,sharesInt"), ("get", "fromDel:from.Bytes():valAddr"), ("amount", "shares:sharesInt"),
+       ("guard-lt", "fromDel.GetShares().LT(shares)"), ("early-return", "from == to"),
+       ("withdraw", "sdk.AccAddress(from.Bytes()).String()"), ("get", "toDel:to.Bytes():valAddr"),
+       ("new", "toDel:sdk.AccAddress(to.Bytes()).String():sdkmath.LegacyZeroDec()"),
+       ("withdraw", "sdk.AccAddress(to.Bytes()).String()"), ("sub", "fromDel:shares"), ("remove", "fromDel"), ("set", "fromDel"),
+       ("add", "toDel:shares"), ("set", "toDel")] := by decide
+
+/-- FRAME: an account that is neither the direct caller nor named as `from` / `to` of a share transfer is left EXACTLY as
+it was by any call that the regenerated dispatcher lets through — same balance, same pending rewards (nothing is
+withdrawn on its behalf or redirected), same shares, same unbonding, same allowances granted -/
+theorem uninvolved_unchanged (dis : List (List Char)) (ro : Bool) (addr mid : List Char) (env : Env) (call : Call) (w w' : World)
+    (hv : call.isView = false) (h : (runGen dis ro addr mid env call w).out = .ok w') (a : Addr) (ha : a ≠ env.caller)
+    (hp : a ∉ call.parties) :
+    w'.bal a = w.bal a ∧ w'.rewards a = w.rewards a ∧ w'.shares a = w.shares a ∧ w'.unbonding a = w.unbonding a ∧
+    ∀ sp, w'.allow a sp = w.allow a sp := by
+  rw [runGen_refines _ _ _ _ _ _ _ hv] at h
+  unfold specRun at h
+  split at h
+  · cases h
+  · split at h
+    · cases h
+    · have hmove : ∀ (w0 w1 : World) p to s, moveShares w0 p to s = .ok w1 → a ≠ p → a ≠ to →
+          w1.bal a = w0.bal a ∧ w1.rewards a = w0.rewards a ∧ w1.shares a = w0.shares a ∧ w1.unbonding a = w0.unbonding a ∧
+          w1.allow = w0.allow := by
+        intro w0 w1 p to s hm h1 h2
+        unfold moveShares at hm
+        split at hm
+        · cases hm
+        · split at hm
+          · cases hm; exact ⟨rfl, rfl, rfl, rfl, rfl⟩
+          · cases hm; simp [claim, upd, h1, h2]
+      cases call with
+      | view n => simp [Call.isView] at hv
+      | transferFromShares f t s =>
+        simp only [Call.parties, List.mem_cons, List.not_mem_nil, or_false, not_or] at hp
+        simp only [specEffect, effect, ↓reduceIte] at h
+        split at h
+        · cases h
+        · obtain ⟨h1, h2, h3, h4, h5⟩ := hmove _ _ _ _ _ h hp.1 hp.2
+          refine ⟨h1, h2, h3, h4, fun sp => ?_⟩
+          rw [h5]; simp [upd2, hp.1]
+      | transferShares t s =>
+        simp only [Call.parties, List.mem_cons, List.not_mem_nil, or_false] at hp
+        simp only [specEffect, effect] at h
+        obtain ⟨h1, h2, h3, h4, h5⟩ := hmove _ _ _ _ _ h ha hp
+        exact ⟨h1, h2, h3, h4, fun sp => by rw [h5]⟩
+      | approve sp s =>
+        simp only [specEffect, effect] at h; cases h
+        exact ⟨rfl, rfl, rfl, rfl, fun sp' => by simp [upd2, ha]⟩
+      | executeClaim n => simp only [specEffect, effect] at h; cases h; exact ⟨rfl, rfl, rfl, rfl, fun _ => rfl⟩
+      | withdraw =>
+        simp only [specEffect, effect] at h
+        split at h
+        · cases h
+        · cases h; simp [claim, upd, ha]
+      | delegate x =>
+        simp only [specEffect, effect] at h
+        split at h
+        · cases h
+        · cases h; simp [claim, upd, ha]
+      | undelegate x =>
+        simp only [specEffect, effect] at h
+        split at h
+        · cases h
+        · cases h; simp [claim, upd, ha]
+      | redelegate x =>
+        simp only [specEffect, effect] at h
+        split at h
+        · cases h
+        · cases h; simp [claim, upd, ha]
+      | crossChain x y r =>
+        simp only [specEffect, effect] at h
+        split at h
+        · cases h
+        · cases h; simp [upd, ha]
+      | bridgeCall r t v =>
+        simp only [specEffect, effect] at h
+        split at h
+        · cases h
+        · cases h; simp [upd, ha]
+      | increaseFee i f =>
+        simp only [specEffect, effect] at h
+        split at h
+        · cases h
+        · cases h; simp [upd, ha]
+      | cancelSend i =>
+        simp only [specEffect, effect] at h
+        split at h
+        · cases h
+        · split at h
+          · cases h
+          · cases h; simp [upd, ha]
+
+/-- HISTORIES through anything but a plain CALL are inert: any list of STATICCALL / DELEGATECALL / CALLCODE calls of any
+methods by anybody leaves the whole world exactly as it was -/
+theorem history_non_call_kinds_inert (ops : List HOp) (w : World) (hk : ∀ o ∈ ops, o.kind ≠ .call) : runH ops w = w := by
+  induction ops generalizing w with
+  | nil => rfl
+  | cons o r ih =>
+    have hstep : applyOp w o = w := by
+      rcases applyOp_spec w o with ⟨_, hw⟩ | ⟨_, _, hro, _⟩ | ⟨_, hw, _⟩
+      · exact hw
+      · exfalso
+        have hc := call_kind_readonly
+        have := hk o (List.mem_cons_self ..)
+        cases hkind : o.kind with
+        | call => exact this hkind
+        | staticcall => rw [hkind, hc.1] at hro; cases hro
+        | delegatecall => rw [hkind, hc.2.1] at hro; cases hro
+        | callcode => rw [hkind, hc.2.2.1] at hro; cases hro
+      · exact hw
+    simp only [runH, List.foldl_cons, hstep]
+    exact ih w (fun o' ho' => hk o' (List.mem_cons_of_mem _ ho'))
+
+/-- HISTORIES under a switch that disables every called address / method (an entry anywhere in each list) are inert -/
+theorem history_disabled_inert (ops : List HOp) (w : World)
+    (hd : ∀ o ∈ ops, ∃ d ∈ o.dis, lower d = lower o.addr ∨ lower d = lower o.addr ++ '/' :: o.mid) : runH ops w = w := by
+  induction ops generalizing w with
+  | nil => rfl
+  | cons o r ih =>
+    have hstep : applyOp w o = w := by
+      rcases applyOp_spec w o with ⟨_, hw⟩ | ⟨_, _, _, hdis⟩ | ⟨_, hw, _⟩
+      · exact hw
+      · exfalso
+        obtain ⟨d, hmem, hm⟩ := hd o (List.mem_cons_self ..)
+        have : specDisabled o.dis o.addr o.mid = true := by
+          simp only [specDisabled, List.any_eq_true, Bool.or_eq_true, beq_iff_eq]
+          exact ⟨d, hmem, hm⟩
+        rw [this] at hdis; cases hdis
+      · exact hw
+    simp only [runH, List.foldl_cons, hstep]
+    exact ih w (fun o' ho' => hd o' (List.mem_cons_of_mem _ ho'))
 
 /-! ### static context that is not the direct call (full-strength statement fails on the fork; see fixes/C10-known.json) -/
 open FxVerif.Model.C09 in
